@@ -90,11 +90,14 @@ Definition nl_wrap_value (T : itype) (v : Z) : Z :=
   else if it_signed T && (it_max T <? v) then bn_wrap (- bwrap (bn_wrap (- v)) (it_bits T))
   else bwrap v (it_bits T).
 
+(* the value is first forced into the type:  if unsigned and negative, or out of range: wrap_value *)
+Definition nl_prewrap (T : itype) (v : Z) : Z :=
+  if (negb (it_signed T) && (v <? 0)) || negb (it_inrange T v) then nl_wrap_value T v else v.
+
 (* base: 0 = the attr has no base (value produced by folding), else 2 / 10 / 16 *)
-Definition nl_emit (T : itype) (v : Z) (base : Z) : ctext :=
-  let num := if (negb (it_signed T) && (v <? 0)) || negb (it_inrange T v) then nl_wrap_value T v else v in
-  let minusone := it_signed T && (num =? it_min T) in
-  let num := if minusone then num + 1 else num in
+Definition nl_emit_from (T : itype) (num0 : Z) (base : Z) : ctext :=
+  let minusone := it_signed T && (num0 =? it_min T) in
+  let num := if minusone then num0 + 1 else num0 in
   let usedec := ((base =? 0) && negb (num =? it_min T) && negb (num =? it_max T)) || (base =? 10) || (num <? 0) in
   let u := negb (it_signed T) in
   let l := if negb (it_inrange cint_T num) || (num =? it_min cint_T) then
@@ -104,6 +107,8 @@ Definition nl_emit (T : itype) (v : Z) (base : Z) : ctext :=
               else 0)
            else 0 in
   mk_ctext minusone (num <? 0) (negb usedec) (Z.abs num) u l.
+
+Definition nl_emit (T : itype) (v : Z) (base : Z) : ctext := nl_emit_from T (nl_prewrap T v) base.
 
 (* ================================================================================================
    C: integer constants (ISO C11 6.4.4.1), unary minus, "- 1", conversion to the target type
